@@ -23,6 +23,41 @@ def _err(rec: Dict[str, Any], err: BaseException, jp_base) -> None:
         rec["strok"] = False
 
 
+class _Timeout(Exception):
+    pass
+
+
+def with_timeout(seconds: float, fn, *args, **kw):
+    """Run fn under a wall-clock guard (SIGALRM); returns (timed_out, result)."""
+    import signal  # noqa: PLC0415
+
+    def handler(signum, frame):  # noqa: ARG001
+        raise _Timeout()
+
+    old = signal.signal(signal.SIGALRM, handler)
+    signal.setitimer(signal.ITIMER_REAL, seconds)
+    try:
+        return False, fn(*args, **kw)
+    except _Timeout:
+        return True, None
+    finally:
+        signal.setitimer(signal.ITIMER_REAL, 0)
+        signal.signal(signal.SIGALRM, old)
+
+
+def _guarded(fn, *args, **kw):
+    """Call fn under a 30 s wall-clock guard when possible (main thread only); a call that does not come back is
+    reported as a TimeoutError, which no JSONPathError is."""
+    import threading  # noqa: PLC0415
+
+    if threading.current_thread() is not threading.main_thread():
+        return fn(*args, **kw)
+    timed_out, res = with_timeout(30.0, fn, *args, **kw)
+    if timed_out:
+        raise TimeoutError("the call did not return within 30 s")
+    return res
+
+
 def _stem(msg: str) -> str:
     """Message with the variable parts (quoted text, numbers) removed."""
     import re  # noqa: PLC0415
@@ -69,7 +104,7 @@ def rec_compile(jp, q: str, env=None, extra: Optional[Dict[str, Any]] = None) ->
     if extra:
         rec.update(extra)
     try:
-        (env or jp).compile(q)
+        _guarded((env or jp).compile, q)
         rec["out"] = "ok"
         rec["jp"] = True
         rec["cls"] = ""
@@ -92,7 +127,7 @@ def rec_find(jp, q: str, doc, env=None, extra: Optional[Dict[str, Any]] = None,
     compiled = _COMPILED.get(key)
     if compiled is None:
         try:
-            compiled = (env or jp).compile(q)
+            compiled = _guarded((env or jp).compile, q)
         except Exception as err:  # noqa: BLE001
             _err(rec, err, jp.JSONPathError)
             rec["stage"] = "compile"
@@ -118,7 +153,7 @@ def rec_find(jp, q: str, doc, env=None, extra: Optional[Dict[str, Any]] = None,
         except Exception:  # noqa: BLE001, S110
             pass
     try:
-        nodes = compiled.find(doc)
+        nodes = _guarded(compiled.find, doc)
         rec["out"] = "ok"
         rec["jp"] = True
         rec["cls"] = ""
@@ -198,28 +233,6 @@ def rec_str(jp, q: str, docs_enc, env=None, extra=None):
         rec["recompiles"] = False
         rec["s2"] = []
     return rec
-
-
-class _Timeout(Exception):
-    pass
-
-
-def with_timeout(seconds: float, fn, *args, **kw):
-    """Run fn under a wall-clock guard (SIGALRM); returns (timed_out, result)."""
-    import signal  # noqa: PLC0415
-
-    def handler(signum, frame):  # noqa: ARG001
-        raise _Timeout()
-
-    old = signal.signal(signal.SIGALRM, handler)
-    signal.setitimer(signal.ITIMER_REAL, seconds)
-    try:
-        return False, fn(*args, **kw)
-    except _Timeout:
-        return True, None
-    finally:
-        signal.setitimer(signal.ITIMER_REAL, 0)
-        signal.signal(signal.SIGALRM, old)
 
 
 def rec_total(jp, q: str, doc, env=None):
